@@ -2,12 +2,12 @@
 from vx.extract import C
 from .exec_common import exec_unit, begin_ast, end_ast, FOOTER
 
-PROPS = ['C02', 'C16', 'C01']
+PROPS = ['C02', 'C03', 'C16', 'C01']
 
 
 def build(repo, findings):
     u, interp = exec_unit('U4j', 'subshell arm: any control flow becomes a plain status', repo,
-                          ['CompoundList'], 'pub enum Node { List(ast::CompoundList) }\n', props=('C02',))
+                          ['CompoundList'], 'pub enum Node { List(ast::CompoundList) }\n', props=('C02', 'C03'))
     begin_ast(u)
     end_ast(u, 'C02')
     u.prelude('exec/subshell_spec.rs')
@@ -19,7 +19,7 @@ def build(repo, findings):
     f.resub(r'^[ \t]*let _ = shell\.display_error\([^;]*\);\n', '', 'R2', 'diagnostic whose result is discarded dropped', count=None)
     f.sig(fn, ret='res', ensures=[
         C('C02 subshell-flow-normal', 'res is Ok && res->Ok_0.next_control_flow is Normal'),
-        C('C02 subshell-status-preserved', 'res is Ok ==> res->Ok_0.exit_code == list_code(*list, clone_spec(*old(shell)), params.suppress_errexit)'),
+        C('C02,C03 subshell-runs-its-list-under-the-exemption-of-its-context-and-hands-back-its-status', 'res is Ok ==> res->Ok_0.exit_code == list_code(*list, clone_spec(*old(shell)), params.suppress_errexit)'),
         C('C02 subshell-parent-untouched', '*final(shell) == *old(shell)'),
     ])
     u.add(f)
